@@ -1,5 +1,6 @@
 import OnetVerif.Model.C13
 import OnetVerif.Gen.C13
+import OnetVerif.Gen.C13K
 /-! Property C13 — the definitions regenerated from the Go source (`Gen/C13.lean`, written by `harness/cmd/go2lean`
 on every check run from `messages.go`, `protocol.go`, `tree.go`, `service.go`, `network/encoding.go`) equal the
 hand-written pre-images of `Model/C13.lean`.  `Gen.C13.Token` is the Go struct field by field (every id a
@@ -48,4 +49,77 @@ theorem c13_gen_id_IsNil_eq (H : HashFns) (a : Bytes) :
     Gen.C13.TreeNodeID_IsNil H a = idIsNil a ∧ Gen.C13.TokenID_IsNil H a = idIsNil a ∧
     Gen.C13.RoundID_IsNil H a = idIsNil a ∧ Gen.C13.ProtocolID_IsNil H a = idIsNil a :=
   ⟨rfl, rfl, rfl, rfl, rfl, rfl⟩
+
+/-! ### round 7: the identifier derivations that sit inside functions the translator cannot take as a whole
+(`NewTree`, `NewRoster`, `NewTreeNode`, `serviceFactory.Register`: loops over a hash writer, closures, registration
+under a lock).  What is lifted from the source is the *value assigned* to the identifier (kind `assign` of
+`"extract"`): the expression over the hash object `h` (its content = what was written to it), the roster, the
+name, the identity.  The theorems say that the model's `…IdOfPre` functions are exactly these expressions. -/
+
+/-- **`NewRoster`'s `ID:` field as read from the source is the model's roster id of the bytes fed to `h`**:
+the SHA-1 UUID of the hex text of the SHA-256 digest.  Falsified by: another digest, the raw digest instead of
+its hex text, another UUID version. -/
+theorem c13_gen_NewRoster_ID_eq (H : HashFns) (h : Bytes) :
+    Gen.C13.NewRoster_ID H h = rosterIdOfPre H h := rfl
+
+/-- hence, when the loops have fed `h` with the model's roster pre-image, the field is the model's roster id -/
+theorem c13_gen_NewRoster_ID_roster (H : HashFns) (ro : List Member) :
+    Gen.C13.NewRoster_ID H (rosterPre ro) = rosterId H ro := rfl
+
+/-- **`NewTree`'s `url` and `ID:` as read from the source are the model's outer pre-image and tree id**:
+`NamespaceURL + "tree/" + roster.ID.String() + hex(h.Sum(nil))`, SHA-1 UUID of it.  Falsified by: dropping the
+roster id, the roster id's bytes instead of its text form, another prefix, another order. -/
+theorem c13_gen_NewTree_url_eq (H : HashFns) (ro : Gen.C13.Roster) (h : Bytes) :
+    Gen.C13.NewTree_url H ro h = treeOuterPre ro.ID (H.sha256 h) := by
+  unfold Gen.C13.NewTree_url treeOuterPre
+  have : ascii "tree/" = [116, 114, 101, 101, 47] := by decide
+  simp only [Gen.C13.RosterID_String, c13_gen_consts, this, List.append_assoc]
+
+theorem c13_gen_NewTree_ID_eq (H : HashFns) (ro : Gen.C13.Roster) (h : Bytes) :
+    Gen.C13.NewTree_ID H (Gen.C13.NewTree_url H ro h) = treeIdOfPre H ro.ID h := by
+  rw [c13_gen_NewTree_url_eq]; rfl
+
+/-- hence, when `Visit` has fed `h` with the model's depth-first pre-image, the field is the model's tree id -/
+theorem c13_gen_NewTree_ID_tree (H : HashFns) (ro : Gen.C13.Roster) (f : Forest) :
+    Gen.C13.NewTree_ID H (Gen.C13.NewTree_url H ro (dfs f)) = treeId H ro.ID f :=
+  c13_gen_NewTree_ID_eq H ro (dfs f)
+
+/-- **`NewTreeNode`'s `ID:` as read from the source is the model's node id of the key's text form** (the
+text form `Public.String()` is a parameter: `keyText` of the model for the three suites); it reads the key and
+nothing else of the identity.  Falsified by: an id from the address, from the roster index, from the deprecated
+`ID` field, with a prefix. -/
+theorem c13_gen_NewTreeNode_ID_eq (H : HashFns) (ni : Gen.C13.ServerIdentity) (text : Bytes → Bytes) :
+    Gen.C13.NewTreeNode_ID H ni text = nodeIdStr H (text ni.Public) := rfl
+
+theorem c13_gen_NewTreeNode_ID_ed25519 (H : HashFns) (ni : Gen.C13.ServerIdentity) :
+    Gen.C13.NewTreeNode_ID H ni hexAscii = nodeId H ni.Public := rfl
+
+/-- **the service id `serviceFactory.Register` assigns, as read from the source, is the model's**: the SHA-1
+UUID of the name alone — no suite, no prefix, no registration state (the seeded change C13r4-A hashed
+`name + suite`). -/
+theorem c13_gen_Register_id_eq (H : HashFns) (name : Bytes) :
+    Gen.C13.serviceFactory_Register_id H name = serviceId H name := rfl
+
+/-- **`ServerIdentity.GetID` as translated (whole function; the key is an option in `Gen.C13K`)**: never panics;
+without a key the nil UUID; with a key the model's server id of its text form. -/
+theorem c13_gen_ServerIdentity_GetID_eq (H : HashFns) (text : Bytes → Bytes) :
+    (∀ key, Gen.C13K.ServerIdentity_GetID H ⟨some key⟩ text = some (serverIdStr H (text key))) ∧
+    Gen.C13K.ServerIdentity_GetID H ⟨none⟩ text = some nilUuid := by
+  refine ⟨fun key => ?_, rfl⟩
+  have : ns ++ ascii "id/" = [104, 116, 116, 112, 115, 58, 47, 47, 100, 101, 100, 105, 115, 46, 101, 112, 102, 108, 46, 99,
+      104, 47, 105, 100, 47] := by decide
+  simp only [Gen.C13K.ServerIdentity_GetID, serverIdStr, serverPreStr, this]
+  rfl
+
+theorem c13_gen_ServerIdentity_GetID_ed25519 (H : HashFns) (key : Bytes) :
+    Gen.C13K.ServerIdentity_GetID H ⟨some key⟩ hexAscii = some (serverId H key) :=
+  (c13_gen_ServerIdentity_GetID_eq H hexAscii).1 key
+
+/-- **`Context.NewPeerSetID` as translated is the model's peer-set id**: SHA-256 over the service id followed by
+the data, cut / padded to 32 bytes by `network.NewPeerSetID`; the slice `c.serviceID[:]` never panics. -/
+theorem c13_gen_Context_NewPeerSetID_eq (H : HashFns) (c : Gen.C13.Context) (data : Bytes) :
+    Gen.C13.Context_NewPeerSetID H c data = some (peerSetId H c.serviceID data) := by
+  have hs : Gen.Rt.slice c.serviceID 0 (Gen.Rt.len c.serviceID) = some c.serviceID := by
+    simp [Gen.Rt.slice, Gen.Rt.len]
+  simp only [Gen.C13.Context_NewPeerSetID, hs, peerSetId, peerSetPre, List.nil_append]
 end C13
